@@ -39,6 +39,7 @@ def decCoinsSub (a b : DecCoins) : Except Err DecCoins := Alliance.decCoinsSub a
 
 abbrev timeAfter (a b : Time) : Bool := decide (a > b)
 abbrev timeEq (a b : Time) : Bool := decide (a = b)
+abbrev timeBefore (a b : Time) : Bool := decide (a < b)
 
 /-- `rh.Alliance == alliance` on an element of a reward-history list -/
 abbrev allianceIs (r : RewardHistory) (a : Denom) : Bool := r.alliance == some a
